@@ -339,7 +339,7 @@ theorem NP.readIref : NP readIref := by
   unfold Bmff.readIref
   apply NP.bind NP.readFlags
   intro _
-  exact NP.loop (h := fun _ => (Pure.pure () : M Unit)) (fun _ => Pres.pure ()) (fun _ => NP.pure ()) .cont NP.close
+  exact NP.loop (h := fun _ => (Pure.pure () : M Unit)) (fun _ => Pres.pure ()) (fun _ => NP.pure ()) .brk NP.close
 theorem NP.readInfe : NP readInfe := by
   unfold Bmff.readInfe
   np
